@@ -15,10 +15,10 @@ func init() {
 		Level: "Decides that no module-internal call path leads from the read-only query entry points to a WAL/WBL write, truncation, repair, checkpoint, tombstone/meta write or block write; " +
 			"that the read-only head only ever gets the sandbox as chunk directory and has its logs detached before use; and that every Head.Init call site derives its replay cutoff " +
 			"from the same class-aware function as the read-write open (finding F2, repaired).",
-		Note:     "Trusted: go/packages, go/ssa, VTA call graph restricted to module functions (+ conservative edges for closures, function values and conversions to non-module interfaces); rule tables in checker/c53.go.",
-		Covers:   "no-reach from DBReadOnly.{Querier,ChunkQuerier,Blocks,Block,LastBlockID,loadDataAsQueryable} to 11 mutating primitives; wlog.Open-only; ChunkDirRoot=sandbox; wal/wbl detached; sandbox removal on Close; single source of the WAL replay cutoff for all three Head.Init call sites.",
-		NotCover: "equality of query results between the two open modes beyond the shared cutoff; file-system effects of os-level calls made by code outside the module.",
-		Run:      runC53,
+		Note:           "Trusted: go/packages, go/ssa, VTA call graph restricted to module functions (+ conservative edges for closures, function values and conversions to non-module interfaces); rule tables in checker/c53.go.",
+		Covers:         "no-reach from DBReadOnly.{Querier,ChunkQuerier,Blocks,Block,LastBlockID,loadDataAsQueryable} to 11 mutating primitives; wlog.Open-only; ChunkDirRoot=sandbox; wal/wbl detached; sandbox removal on Close; single source of the WAL replay cutoff for all three Head.Init call sites.",
+		NotCover:       "equality of query results between the two open modes beyond the shared cutoff; file-system effects of os-level calls made by code outside the module.",
+		Run:            runC53,
 		MinObligations: 25,
 	})
 }
@@ -53,20 +53,20 @@ func runC53(c *eng.Ctx) {
 		fsMut := []string{"os:Remove", "os:RemoveAll", "os:Rename", "os:Create", "os:Mkdir", "os:MkdirAll", "os:MkdirTemp", "os:WriteFile", "os:Truncate",
 			"os:OpenFile", "os:Link", "os:Symlink", "os:CreateTemp", "tsdb/fileutil:Replace", "tsdb/fileutil:Rename"}
 		sandboxOnly := map[string]string{
-			"tsdb/chunks:HardLinkChunkFiles":               "creates the sandbox chunks_head directory and links into it",
-			"tsdb/chunks:ChunkDiskMapper.openMMapFiles":    "operates on HeadOptions.ChunkDirRoot (= sandbox, R2)",
-			"tsdb/chunks:ChunkDiskMapper.cut":              "operates on ChunkDirRoot (= sandbox, R2)",
-			"tsdb/chunks:ChunkDiskMapper.deleteFiles":      "operates on ChunkDirRoot (= sandbox, R2)",
-			"tsdb/chunks:ChunkDiskMapper.DeleteCorrupted":  "operates on ChunkDirRoot (= sandbox, R2)",
-			"tsdb/chunks:NewChunkDiskMapper":               "MkdirAll of ChunkDirRoot (= sandbox, R2)",
-			"tsdb/chunks:repairLastChunkFile":              "operates on ChunkDirRoot (= sandbox, R2)",
-			"tsdb/chunks:cutSegmentFile":                   "operates on ChunkDirRoot (= sandbox, R2)",
-			"tsdb:DeleteChunkSnapshots":                    "operates on ChunkDirRoot (= sandbox, R2); snapshots are not linked into the sandbox",
-			"tsdb:Head.ChunkSnapshot":                      "cut away: only with EnableMemorySnapshotOnShutdown (off in DefaultHeadOptions)",
-			"tsdb/fileutil:Rename":                         "helper, reached only through the functions above",
-			"tsdb/fileutil:Replace":                        "helper, reached only through the functions above",
-			"tsdb/fileutil:preallocExtend":                 "preallocation of a file created by the functions above",
-			"tsdb/fileutil:CopyDirs":                       "not reachable today; listed for completeness",
+			"tsdb/chunks:HardLinkChunkFiles":              "creates the sandbox chunks_head directory and links into it",
+			"tsdb/chunks:ChunkDiskMapper.openMMapFiles":   "operates on HeadOptions.ChunkDirRoot (= sandbox, R2)",
+			"tsdb/chunks:ChunkDiskMapper.cut":             "operates on ChunkDirRoot (= sandbox, R2)",
+			"tsdb/chunks:ChunkDiskMapper.deleteFiles":     "operates on ChunkDirRoot (= sandbox, R2)",
+			"tsdb/chunks:ChunkDiskMapper.DeleteCorrupted": "operates on ChunkDirRoot (= sandbox, R2)",
+			"tsdb/chunks:NewChunkDiskMapper":              "MkdirAll of ChunkDirRoot (= sandbox, R2)",
+			"tsdb/chunks:repairLastChunkFile":             "operates on ChunkDirRoot (= sandbox, R2)",
+			"tsdb/chunks:cutSegmentFile":                  "operates on ChunkDirRoot (= sandbox, R2)",
+			"tsdb:DeleteChunkSnapshots":                   "operates on ChunkDirRoot (= sandbox, R2); snapshots are not linked into the sandbox",
+			"tsdb:Head.ChunkSnapshot":                     "cut away: only with EnableMemorySnapshotOnShutdown (off in DefaultHeadOptions)",
+			"tsdb/fileutil:Rename":                        "helper, reached only through the functions above",
+			"tsdb/fileutil:Replace":                       "helper, reached only through the functions above",
+			"tsdb/fileutil:preallocExtend":                "preallocation of a file created by the functions above",
+			"tsdb/fileutil:CopyDirs":                      "not reachable today; listed for completeness",
 		}
 		reach := map[string]bool{}
 		for _, from := range []string{"tsdb:DBReadOnly.Querier", "tsdb:DBReadOnly.ChunkQuerier", "tsdb:DBReadOnly.Blocks", "tsdb:DBReadOnly.Block"} {
